@@ -1,10 +1,12 @@
 #!/bin/bash
-# usage: seed_confirm.sh <seed-id> <demo-pkg-dir-relative> <demo-test-regex> <prop> [<prop>...]
+# usage: seed_confirm.sh <seed-id> <demo-pkg-dir-relative|-> <demo-test-regex> <prop> [<prop>...]
+#   env SRC=<dir with patch.diff + demo> (default /tmp/seedout/<seed-id>), DEST=<name under /verif/seeded> (default <seed-id>)
 # Confirms a sub-agent's seeded change in a fresh scratch worktree (demo passes without / fails with the patch,
-# repository suite still passes with it), then runs our checks against it on /repo (always restored).
+# repository suite still passes with it), then runs our checks against it (bin/mutant.sh: scratch worktree, never /repo).
 ID=$1; PKG=$2; RE=$3; shift 3
-SRC=/tmp/seedout/$ID
-WT=/tmp/seedconf_$ID
+SRC=${SRC:-/tmp/seedout/$ID}; DEST=${DEST:-$ID}
+[ "$PKG" = "-" ] && PKG=$(cat $SRC/pkg.txt | tr -d ' \n')
+WT=/tmp/seedconf_$DEST
 export GOFLAGS=-mod=mod GOPROXY=off
 rm -rf $WT; git -C /repo worktree prune; git -C /repo worktree add --detach $WT HEAD >/dev/null 2>&1 || { echo "cannot create worktree"; exit 2; }
 trap 'git -C /repo worktree remove --force '$WT' 2>/dev/null; rm -rf '$WT EXIT
@@ -14,8 +16,8 @@ echo "== demo WITHOUT the change (must pass)"
 go test -vet=off -count=1 -run "$RE" ./$PKG/ 2>&1 | tail -3; r0=${PIPESTATUS[0]}
 git apply $SRC/patch.diff || { echo "patch does not apply"; exit 2; }
 echo "== demo WITH the change (must fail)"
-go test -vet=off -count=1 -run "$RE" ./$PKG/ 2>&1 | tail -6; r1=${PIPESTATUS[0]}
-rm -f $WT/$PKG/zz_seed*_test.go $WT/$PKG/*seed*_test.go
+go test -vet=off -count=1 -run "$RE" ./$PKG/ 2>&1 | tail -6 | cut -c1-300; r1=${PIPESTATUS[0]}
+for f in $SRC/*_test.go; do rm -f $WT/$PKG/$(basename $f); done
 echo "== repository suite WITH the change (must pass)"
 r2=1; for try in 1 2 3; do /verif/bin/baseline.sh $WT | head -4; r2=${PIPESTATUS[0]}; [ $r2 -eq 0 ] && break; echo "(suite retry $try: timing-dependent tests under load)"; done
 echo "confirm: demo_without=$r0 demo_with=$r1 suite_with=$r2"
@@ -23,7 +25,7 @@ cd /verif
 if [ $r0 -eq 0 ] && [ $r1 -ne 0 ] && [ $r2 -eq 0 ]; then
   echo "== our checks against the change"
   SKIP_BASELINE=1 /verif/bin/mutant.sh $SRC/patch.diff "$@" 2>&1 | grep 'mutant:\|sig:' | cut -c1-260
-  mkdir -p /verif/seeded/$ID; cp $SRC/patch.diff $SRC/*_test.go /verif/seeded/$ID/ 2>/dev/null; cp $SRC/notes.md /verif/seeded/$ID/ 2>/dev/null
+  mkdir -p /verif/seeded/$DEST; cp $SRC/patch.diff $SRC/*_test.go /verif/seeded/$DEST/ 2>/dev/null; cp $SRC/notes.md /verif/seeded/$DEST/ 2>/dev/null
 else
   echo "NOT CONFIRMED"
 fi
